@@ -120,7 +120,9 @@ Proof.
     { intros k' q0 H0 ->. apply Hkr. apply in_map_iff. exists (k, q0). auto. }
     destruct q' as [|m2 q2].
     + (* the sender's last message: it goes inactive *)
-      cbn [length Z.of_nat Z.sub Z.gtb Z.ltb Z.compare Pos.compare Z.pos_sub Pos.of_succ_nat linked map fst snd].
+      cbn [length Z.of_nat Pos.of_succ_nat linked map].
+      repeat first [ progress (change (1 - 1) with 0) | progress (change (0 <? 0) with false) | progress (change (0 >? 0) with false) | progress (cbv iota) ].
+      cbn [fst snd].
       split; [reflexivity|].
       unfold frel. cbn [factive fboxes flen].
       split; [reflexivity|]. split; [exact Hndr|]. split; [|split].
@@ -164,5 +166,5 @@ Proof.
   - intros s t m HR. exact (frel_enq s t m HR).
   - intros s t HR. exact (frel_deq s t HR).
   - intros s t HR. exact (frel_obs s t HR).
-  - unfold frel. simpl. repeat split; try constructor; try tauto. intros k q [].
+  - unfold frel. simpl. repeat split; try constructor; try tauto.
 Qed.
